@@ -161,7 +161,7 @@ fn main() {
             let w = World::new(seed, 3, 7);
             let mut rng = Rng::new(seed);
             let scheds = args.kv.get("schedules").map(|p| read_schedules(p)).unwrap_or_default();
-            docs::run(&w, seed, &mut rng, scheds, args.num("n", 60) as usize, &dir, &mut trace, &mut sum);
+            docs::run(&w, seed, &mut rng, scheds, args.num("n", 60) as usize, args.num("plant", 0) == 1, &dir, &mut trace, &mut sum);
         }
         "heads" => {
             let w = World::new(seed, 6, 2);
